@@ -280,25 +280,6 @@ func vfC11Nondet(kind string, tree interface{}) string {
 		return "time:rate-limiter-periods"
 	}
 	reason := ""
-	if m, ok := tree.(map[string]interface{}); ok && kind == "HeaderToJSON" {
-		// two headers mapped to one JSON field: the winner depends on Go's map iteration order
-		seen := map[string]bool{}
-		if hm, ok := m["headerMap"].([]interface{}); ok {
-			for _, e := range hm {
-				j := ""
-				switch x := e.(type) {
-				case map[string]interface{}:
-					j = fmt.Sprint(x["json"])
-				case map[interface{}]interface{}:
-					j = fmt.Sprint(x["json"])
-				}
-				if seen[j] {
-					return "random:map-order"
-				}
-				seen[j] = true
-			}
-		}
-	}
 	var walk func(key string, v interface{})
 	walk = func(key string, v interface{}) {
 		if reason != "" {
@@ -340,6 +321,30 @@ func vfC11Nondet(kind string, tree interface{}) string {
 }
 
 func vfC11NondetMap(key string, get func(string) (interface{}, bool), reason *string) {
+	if hm, ok := get("headerMap"); ok {
+		// HeaderToJSON: two headers mapped to one JSON field, the winner depends on Go's map iteration order
+		if l, ok := hm.([]interface{}); ok {
+			seen := map[string]bool{}
+			for _, e := range l {
+				var jv interface{}
+				switch x := e.(type) {
+				case map[string]interface{}:
+					jv = x["json"]
+				case map[interface{}]interface{}:
+					jv = x["json"]
+				}
+				j := ""
+				if jv != nil { // an absent json name is the empty name
+					j = fmt.Sprint(jv)
+				}
+				if seen[j] {
+					*reason = "random:map-order"
+					return
+				}
+				seen[j] = true
+			}
+		}
+	}
 	if p, ok := get("policy"); ok {
 		switch fmt.Sprint(p) {
 		case "random", "weightedRandom":
